@@ -261,8 +261,12 @@ Definition setter_route (o : view_op) : Z :=
 Definition unit_or_err {A} (c : cell) (r : res A) (f : A -> cell) : val * cell :=
   match r with Ok a => (VNone, f a) | Err k => (VErr k, c) | Abort a => (VAbort a, c) end.
 
-Fixpoint step_op (od : odvar) (c : cell) (o : view_op) {struct o} : val * cell :=
-  let g := cell_get (od_dt od) in
+(* SdoAbortedError 0x06010001 "attempt to read a write only object": what a store whose read is refused raises *)
+Definition ABORT_WRITE_ONLY : Z := 100728833.
+
+(* wo = true: a store that takes writes but refuses every read (write-only object behind SDO) *)
+Fixpoint step_op_g (wo : bool) (od : odvar) (c : cell) (o : view_op) {struct o} : val * cell :=
+  let g := if wo then (fun _ : cell => Abort ABORT_WRITE_ONLY) else cell_get (od_dt od) in
   let s := cell_set (od_dt od) in
   match o with
   | OSetRaw v => unit_or_err c (s c v) (fun x => x)
@@ -283,7 +287,7 @@ Fixpoint step_op (od : odvar) (c : cell) (o : view_op) {struct o} : val * cell :
   | OWrite fmt o' =>
       let r := rw_route fmt in
       if r =? 0 then (VNone, c)                       (* unknown format: nothing is written *)
-      else if r =? setter_route o' then step_op od c o'  (* self.raw / self.phys / self.desc = value *)
+      else if r =? setter_route o' then step_op_g wo od c o'  (* self.raw / self.phys / self.desc = value *)
       else (VErr E_FUEL, c)                           (* value of another Python type: never generated *)
   | ORead fmt =>
       let r := rw_route fmt in
@@ -293,12 +297,15 @@ Fixpoint step_op (od : odvar) (c : cell) (o : view_op) {struct o} : val * cell :
       else (VNone, c)                                 (* unknown format: returns None *)
   end.
 
+Definition step_op : odvar -> cell -> view_op -> val * cell := step_op_g false.
+
 (* after every step: what the step returned and the bytes of the whole buffer *)
-Fixpoint run_ops (od : odvar) (c : cell) (ops : list view_op) : list val :=
+Fixpoint run_ops_g (wo : bool) (od : odvar) (c : cell) (ops : list view_op) : list val :=
   match ops with
   | [] => []
-  | o :: r => let '(v, c') := step_op od c o in VL [v; VB (cell_frame c')] :: run_ops od c' r
+  | o :: r => let '(v, c') := step_op_g wo od c o in VL [v; VB (cell_frame c')] :: run_ops_g wo od c' r
   end.
+Definition run_ops : odvar -> cell -> list view_op -> list val := run_ops_g false.
 
 Inductive views_case :=
 (* od.encode_bits(raw, sel, v) and od.decode_bits(raw, sel) *)
@@ -309,6 +316,9 @@ Inductive views_case :=
 | VPhysOd (dt fn fd vn vd raw : Z)
 (* an object of type dt behind a store: buffer pre ++ cur ++ post, then the operations *)
 | VOps (dt fn fd : Z) (descs : list (Z * list Z)) (defs : list (list Z * list Z))
+       (pre cur post : list Z) (ops : list view_op)
+(* the same behind a store that refuses every read *)
+| VOpsWo (dt fn fd : Z) (descs : list (Z * list Z)) (defs : list (list Z * list Z))
        (pre cur post : list Z) (ops : list view_op).
 
 Definition run_views (c : views_case) : val :=
@@ -325,4 +335,6 @@ Definition run_views (c : views_case) : val :=
       VL [res_val VZ (encode_phys od (mkq vn vd)); res_val qval (decode_phys od raw)]
   | VOps dt fn fd descs defs pre cur post ops =>
       VL (run_ops (mkod dt fn fd descs defs) {| c_pre := pre; c_cur := cur; c_post := post |} ops)
+  | VOpsWo dt fn fd descs defs pre cur post ops =>
+      VL (run_ops_g true (mkod dt fn fd descs defs) {| c_pre := pre; c_cur := cur; c_post := post |} ops)
   end.
